@@ -201,17 +201,24 @@ def apply_op(cache, op):
 
 def cache_digest(c):
     parts = []
-    for s in sorted(c.routers, key=nkey):
-        rs = c.routers[s]
+    routers = c.routers
+    for s in (sorted(routers, key=nkey) if len(routers) > 1 else routers):
+        rs = routers[s]
         items = []
-        for a in sorted(rs, key=aid):
+        for a in (sorted(rs, key=aid) if len(rs) > 1 else rs):
             ri = rs[a]
-            body = ",".join("%d=%d" % (d, ri.dnets[d]) for d in sorted(ri.dnets))
+            dn = ri.dnets
+            body = ",".join(["%d=%d" % (d, dn[d]) for d in (sorted(dn) if len(dn) > 1 else dn)])
             st = ri.__dict__.get("status")
-            items.append("%d(%s)%s" % (aid(a), body, "" if st is None else "~%d" % st))
+            items.append("%d(%s)%s" % (a.addrAddr[0], body, "" if st is None else "~%d" % st))
         parts.append(nstr(s) + "{" + ";".join(items) + "}")
-    ps = sorted(c.path_info.items(), key=lambda kv: (nkey(kv[0][0]), kv[0][1]))
-    return "".join(parts) + "|" + ",".join("%s/%d>%d" % (nstr(s), d, aid(ri.address)) for (s, d), ri in ps)
+    pi = c.path_info
+    if len(pi) > 1:
+        ps = sorted([(nkey(k[0]), k[1], k[0], ri) for k, ri in pi.items()], key=lambda t: t[:2])
+    else:
+        ps = [(0, k[1], k[0], ri) for k, ri in pi.items()]
+    return "".join(parts) + "|" + ",".join(["%s/%d>%d" % (nstr(s), d, ri.address.addrAddr[0])
+                                            for _k, d, s, ri in ps])
 
 
 def real_map(c):
@@ -401,6 +408,54 @@ def op_letter(op):
     return op[0]
 
 
+def make_fast(alpha):
+    """per-letter closures on the real cache / the reference map (alphabet without refused calls)"""
+    real, ref = [], []
+    for op in alpha:
+        k = op[0]
+        if k == "u":
+            real.append(lambda c, s=op[1], a=addr(op[2]), ds=tuple(op[3]), st=op[4]:
+                        c.update_router_info(s, a, list(ds), st))
+        elif k == "d" and not (op[2] is None and op[3] is None):
+            real.append(lambda c, s=op[1], a=(None if op[2] is None else addr(op[2])),
+                        ds=(None if op[3] is None else tuple(op[3])):
+                        c.delete_router_info(s, a, None if ds is None else list(ds)))
+        elif k == "r":
+            real.append(lambda c, o=op[1], n=op[2]: c.update_source_network(o, n))
+        else:
+            return None, None
+        ref.append(lambda m, op=op: abs_apply(m, op))
+    return real, ref
+
+
+def quick_ok(cache, m):
+    """the same oracle as check_state + check_lookups, fused; False = look closer (slow path reports)"""
+    pi = cache.path_info
+    if len(pi) != len(m):
+        return False
+    n = 0
+    for s, rs in cache.routers.items():
+        for a, ri in rs.items():
+            if ri.address is not a and ri.address != a:
+                return False
+            for d in ri.dnets:
+                if pi.get((s, d)) is not ri:
+                    return False
+                n += 1
+    if n != len(pi):          # a path without a credited router behind it
+        return False
+    for key, ri in pi.items():
+        if m.get(key) != ri.address.addrAddr[0]:
+            return False
+    get = cache.get_router_info
+    for s in SNETS:
+        for d in DNETS:
+            ri = get(s, d)
+            if (ri is None) != ((s, d) not in m) or (ri is not None and ri is not pi.get((s, d))):
+                return False
+    return True
+
+
 def shard_enum(ctx, spec):
     """spec: {"alpha": name, "prefixes": [[...]], "depth": k, "model": bool, "stream": s}"""
     alpha = alphabet40() if spec["alpha"] == "a40" else alphabet_wide()
@@ -414,6 +469,8 @@ def shard_enum(ctx, spec):
         model = drv.ask(reqs)
     sigs = {}
     total = 0
+    real, ref = make_fast(alpha)
+    from bacpypes.netservice import RouterInfoCache
     for pi, prefix in enumerate(spec["prefixes"]):
         mds = None
         if model is not None:
@@ -422,13 +479,27 @@ def shard_enum(ctx, spec):
             mds = model[pi]["ds"]
         for wi, w in enumerate(dfs_words(len(alpha), spec["depth"])):
             idx = tuple(prefix) + w
-            ops = [alpha[i] for i in idx]
-            case = {"stream": stream, "ops": ops}
-            d = run_real_seq(ctx, case, ops, every=False, lookups=True) if ops else "|"
+            d = None
+            if real is not None:
+                # fast path: same real calls, same oracle, no bookkeeping
+                cache, m = RouterInfoCache(), {}
+                try:
+                    for i in idx:
+                        real[i](cache)
+                        ref[i](m)
+                    if quick_ok(cache, m):
+                        d = cache_digest(cache)
+                except Exception:  # noqa  (the slow path below reports it)
+                    d = None
+            if d is None:
+                ops = [alpha[i] for i in idx]
+                case = {"stream": stream, "ops": ops}
+                d = run_real_seq(ctx, case, ops, every=False, lookups=True) if ops else "|"
             total += 1
             if mds is not None:
                 if d != mds[wi]:
-                    ctx.disagree(stream, case, {"d": d}, {"d": mds[wi]})
+                    ctx.disagree(stream, {"stream": stream, "ops": [alpha[i] for i in idx]},
+                                 {"d": d}, {"d": mds[wi]})
             word = "".join(letters[i] for i in idx)
             sg = (word, shape(d))
             sigs[sg] = sigs.get(sg, 0) + 1
